@@ -17,7 +17,8 @@ PARTS = {"c03fs": "fs", "c03vault": "vault", "c03ks": "ks", "c03api": "api"}
 
 REQUIRED = [
     "kid_confined", "kid_confined_vault", "valid_kid_bytes", "kid_pattern_language", "uuid_names_confined",
-    "backend_names_valid_or_drawn", "key_material_does_not_flow", "fact_uuid_bytes_allowed", "pattern_alone_does_not_confine_vault",
+    "backend_names_valid_or_drawn", "key_material_does_not_flow", "fact_uuid_bytes_allowed",
+    "error_text_independent_of_key_material", "fact_no_key_variable_formatted", "pattern_alone_does_not_confine_vault",
     "wrapper_validates_all_kid_methods", "unknown_kid_never_signs", "sign_only_by_reference",
     "backend_touched_only_at_valid_or_new_names", "keyref_binding", "signature_verifies_with_published_key_only",
     "signjws_no_private_jwk", "store_signjws_headers", "store_key_as_jwk_header_refused", "signjws_rule_is_signer_typed",
@@ -257,6 +258,7 @@ def run(ctx):
         signs_ok = 0
         hdr_feat = Counter()
         audit_events = Counter()
+        err_texts = Counter()
         for i, line in enumerate(impl):
             op = json.loads(ops[i]) if i < len(ops) and ops[i] else {}
             k = op.get("op")
@@ -266,6 +268,10 @@ def run(ctx):
                 line = line[:ma.start()]
                 for ev in filter(None, ma.group(1).split(";")):
                     audit_events[ev.split(":", 1)[0]] += 1
+            me = re.search(r' err="(.*)"', line)
+            if me:
+                err_texts[re.sub(r"[0-9a-f]{8}-[0-9a-f-]{27}", "UUID", me.group(1))[:60]] += 1
+                line = line[:me.start()] + line[me.end():]
             distinct.add(("ks", ops[i] if k in ("signjws", "signjwt", "jwkclass") else (k, op.get("kid"), op.get("keyName"), op.get("how"), i - seq_start)))
             if "panic:" in line:
                 found_violation |= ctx.violation("C03:ks:panic", line[:200], "ks-panic.jsonl", "\n".join(ops[seq_start:i + 1]))
@@ -365,7 +371,8 @@ def run(ctx):
         if jwt_private:
             ctx.notes.append(f"observation (not a violation of the property as stated — the key is the caller's, never a key store key): "
                              f"SignJWT has no jwk-header rule; {jwt_private} generated calls embedded a caller-supplied private JWK (model predicts the same)")
-        dist["keystore"] = {"ops": dict(kinds), "signatures_checked": signs_ok, "audit_records_compared": dict(audit_events), "header_outcomes": dict(hdr_feat.most_common(12))}
+        dist["keystore"] = {"ops": dict(kinds), "signatures_checked": signs_ok, "audit_records_compared": dict(audit_events),
+                            "error_texts_compared": dict(err_texts.most_common(10)), "planted_key_types": dict(Counter(json.loads(o).get("ktype") for o in ops if '"op":"plant"' in o)), "header_outcomes": dict(hdr_feat.most_common(12))}
 
         # ---- canary scan (EXPLORATION)
         cp = os.path.join(out, "ks_canary.json")
@@ -374,8 +381,8 @@ def run(ctx):
             hits = can.get("hits") or []
             ctx.cov["canary_scan_EXPLORATION"] = {k: can.get(k) for k in ("keys", "canaries", "bytes_scanned", "sinks", "scanner_positive_control")}
             ctx.cov["canary_scan_EXPLORATION"]["hits"] = len(hits)
-            ctx.cov["canary_scan_EXPLORATION"]["what"] = ("private scalars / PKCS8 DER / PEM lines / JWK d of every key the real store generated, in hex, HEX, "
-                                                          "base64(std,url,raw) and decimal, searched in: return values + errors of every exported crypto API called, "
+            ctx.cov["canary_scan_EXPLORATION"]["what"] = ("private scalars / PKCS8 DER / PEM lines / JWK d of every key the real store generated or was given (ECDSA; RSA D, primes, CRT values; "
+                                                          "Ed25519 seed + private bytes), in hex, HEX, base64(std,url,raw), decimal and Go slice print, searched in: return values + errors of every exported crypto API called, "
                                                           "logrus output at trace level, audit records, all SQLite rows, signed tokens (raw + decoded segments), file names")
             ctx.oblige("exploration:canary-scan-ran", bool(can.get("scanner_positive_control")) and (can.get("keys", 0) > 0 or bool(ctx.replay)),
                        f"keys={can.get('keys')} control={can.get('scanner_positive_control')}")
